@@ -49,6 +49,9 @@ BUILT = {
             "Complete over the enumerated sub-domains, sampled beyond.",
             "Trusts the scanner (self-tested on hand-written fixtures on every run); lexer exceptions are C05's.",
             "§4.10, §3.4"),
+    "C11": ("exhaustive enumeration of the C11 constant grammar up to a digit bound (valid families) and of the malformed families L1-L10, each in several right contexts; one-token / matching-diagnostic oracle",
+            "Every constant derivable up to the bound (all bases, first digits, 53 suffix spellings, exponent forms, empty parts, every escape with every prefix) must be one token with no lexical diagnostic; every malformed member must get its diagnostic inside the literal. Complete over the bound (exhaustive: true).",
+            "Digit strings beyond the bound are not covered; the grammar tables are the harness's own, written from the standard.", "§4.11"),
     "C12": ("metamorphic testing: respelling (digraph/trigraph) and line-splice insertion on generated programs, lexeme soups and all operator pairs; token-sequence equality oracle",
             "For generated files and soups any subset of punctuators is respelled and any subset of lexeme boundaries receives a splice; the (type, value) token sequence must not change, "
             "all adjacent/separated operator pairs are enumerated for longest-match, and brace/bracket respelling must leave (level, code, line) of the analysis unchanged.",
